@@ -313,8 +313,11 @@ class Document:
             pages = self.pages
         elif not isinstance(pages, list):
             pages = list(pages)
-        return type(self)(
+        document = type(self)(
             pages, self.metadata, self.url_fetcher, self.font_config)
+        if hasattr(self, '_html'):
+            document._html = self._html
+        return document
 
     def make_bookmark_tree(self, scale=1, transform_pages=False):
         """Make a tree of all bookmarks in the document.
